@@ -138,3 +138,38 @@ pub fn message(desc: &str) -> String {
         Err(e) => format!("err\t{}", e),
     }
 }
+
+
+/// Formatting depends on the current state only: after a part or message has been formatted (or cloned, or asked for its boundary), changing
+/// its headers through headers_mut() must give exactly what a freshly built equal value gives.  "ok" or what differs.
+pub fn mutate_after_format() -> String {
+    use lettre::message::header::{ContentType, Subject};
+    let mk = |b: &str| MultiPart::mixed().boundary(b).singlepart(SinglePart::plain(String::from("first\r\n"))).singlepart(SinglePart::plain(String::from("second")));
+    let mut bad: Vec<String> = vec![];
+    // multipart: format, then announce another boundary
+    let mp = mk("OLD-boundary-1");
+    let _ = mp.formatted();
+    let _ = mp.boundary();
+    let mut mp2 = mp.clone();
+    mp2.headers_mut().set(ContentType::parse("multipart/mixed; boundary=\"NEW-boundary-2\"").unwrap());
+    let fresh = mk("NEW-boundary-2");
+    if mp2.formatted() != fresh.formatted() { bad.push("multipart: after formatting, a Content-Type replaced through headers_mut() is announced but the delimiters are not the announced boundary".into()); }
+    if mp2.boundary() != "NEW-boundary-2" { bad.push(format!("multipart: boundary() gives {} after the header was replaced", mp2.boundary())); }
+    if mp.formatted() != mk("OLD-boundary-1").formatted() { bad.push("multipart: the original changed when its clone was modified".into()); }
+    // nested: the child re-targeted after the parent was formatted
+    let mut inner = mk("INNER-1");
+    let outer = MultiPart::mixed().boundary("OUTER-1").multipart(inner.clone());
+    let _ = outer.formatted();
+    inner.headers_mut().set(ContentType::parse("multipart/mixed; boundary=\"INNER-2\"").unwrap());
+    let outer2 = MultiPart::mixed().boundary("OUTER-1").multipart(inner);
+    let fresh2 = MultiPart::mixed().boundary("OUTER-1").multipart(mk("INNER-2"));
+    if outer2.formatted() != fresh2.formatted() { bad.push("nested multipart: re-targeted child formatted with its old boundary".into()); }
+    // message: format, then replace the subject
+    let build = |s: &str| lettre::Message::builder().from("a@x.example".parse().unwrap()).to("b@y.example".parse().unwrap()).subject(s)
+        .date(std::time::UNIX_EPOCH + std::time::Duration::from_secs(1_700_000_000)).multipart(mk("MSG-1")).unwrap();
+    let mut m = build("before");
+    let _ = m.formatted();
+    m.headers_mut().set(Subject::from(String::from("after")));
+    if m.formatted() != build("after").formatted() { bad.push("message: Subject replaced after formatting is not what is formatted".into()); }
+    if bad.is_empty() { "ok".into() } else { format!("bad\t{}", hex(bad.join(" | ").as_bytes())) }
+}
